@@ -201,6 +201,9 @@ func c09Program(r *RNG) GoProg {
 	}
 	sb.WriteString("type T struct {\n\tA int\n\tF func(int) int\n}\n\nfunc (t *T) M(k int) int {\n\treturn t.A*100 + k\n}\n\nfunc (t *T) M2(a int, b string) (string, int) {\n\treturn b, t.A + a\n}\n\n")
 	sb.WriteString("func sum(base int, xs ...int) int {\n\tfor _, x := range xs {\n\t\tbase += x\n\t}\n\treturn base*10 + len(xs)\n}\n\n")
+	sb.WriteString("func sum2(base int, xs ...int) (int, int) {\n\ts := base\n\tfor _, x := range xs {\n\t\ts += x\n\t}\n\treturn s, len(xs)\n}\n\n")
+	sb.WriteString("func tail1(xs []int) int {\n\treturn sum(3, xs...)\n}\n\nfunc tail2(xs []int) (int, int) {\n\treturn sum2(4, xs...)\n}\n\nfunc tail0(k int) int {\n\treturn sum(k)\n}\n\n")
+	sb.WriteString("func (t *T) MV(xs ...int) int {\n\treturn t.A + len(xs)*10\n}\n\nfunc (t *T) TailM(xs []int) int {\n\treturn t.MV(xs...)\n}\n\n")
 	sb.WriteString("func rec(n int) int {\n\tif n == 0 {\n\t\treturn 0\n\t}\n\treturn 1 + rec(n-1)\n}\n\n")
 	sb.WriteString("func apply(f func(int) int, v int) int {\n\treturn f(v) + 1\n}\n\nfunc twice(v int) int {\n\treturn v * 2\n}\n\nfunc pair(a int, b int) (int, int) {\n\treturn b, a\n}\n\nfunc pass(a int, b int) (int, int) {\n\treturn pair(a, b)\n}\n\n")
 	nf := 2 + r.Intn(3)
@@ -260,6 +263,17 @@ func c09Program(r *RNG) GoProg {
 			fmt.Fprintf(&sb, "\treturn %s\n", strings.Join(rets, ", "))
 		}
 		sb.WriteString("}\n\n")
+		if s.variadic && len(s.rs) > 0 { // return g(fixed…, xs...): a tail call whose last argument is a spread slice
+			k := len(s.ps) - 1
+			var ps2, as2 []string
+			for j, t := range s.ps[:k] {
+				ps2 = append(ps2, fmt.Sprintf("p%d %s", j, t))
+				as2 = append(as2, fmt.Sprintf("p%d", j))
+			}
+			ps2 = append(ps2, fmt.Sprintf("xs []%s", s.ps[k]))
+			as2 = append(as2, "xs...")
+			fmt.Fprintf(&sb, "func w%d(%s) (%s) {\n\treturn g%d(%s)\n}\n\n", i, strings.Join(ps2, ", "), strings.Join(s.rs, ", "), i, strings.Join(as2, ", "))
+		}
 	}
 	sb.WriteString("func main() {\n")
 	for i, s := range sigs {
@@ -316,6 +330,26 @@ func c09Program(r *RNG) GoProg {
 			fmt.Fprintf(&sb, "println(\"m\", %s)\n", strings.Join(used, ", "))
 		}
 	}
+	for i, s := range sigs {
+		if !(s.variadic && len(s.rs) > 0) {
+			continue
+		}
+		k := len(s.ps) - 1
+		var args []string
+		for _, t := range s.ps[:k] {
+			args = append(args, lit(t))
+		}
+		var extra []string
+		for e := r.Intn(3); e > 0; e-- {
+			extra = append(extra, lit(s.ps[k]))
+		}
+		args = append(args, fmt.Sprintf("[]%s{%s}", s.ps[k], strings.Join(extra, ", ")))
+		var names []string
+		for j := range s.rs {
+			names = append(names, fmt.Sprintf("w%d_%d", i, j))
+		}
+		fmt.Fprintf(&sb, "%s := w%d(%s)\nprintln(\"w\", %s)\n", strings.Join(names, ", "), i, strings.Join(args, ", "), strings.Join(names, ", "))
+	}
 	depth := Pick(r, []int{1, 10, 500, 3000})
 	fmt.Fprintf(&sb, "println(\"rec\", rec(%d))\n", depth)
 	fmt.Fprintf(&sb, "println(\"sum\", sum(1), sum(1, 2), sum(1, 2, 3, 4))\nxs := []int{5, 6, 7}\nprintln(\"spread\", sum(2, xs...))\n")
@@ -324,6 +358,7 @@ func c09Program(r *RNG) GoProg {
 	sb.WriteString("fv := twice\nprintln(\"fv\", fv(21), apply(twice, 5), apply(fv, 6))\n")
 	sb.WriteString("t.F = twice\nprintln(\"field\", t.F(8))\n")
 	sb.WriteString("a, b := pass(1, 2)\nprintln(\"pass\", a, b)\n")
+	fmt.Fprintf(&sb, "ys := []int{%d, %d}\nprintln(\"tail\", tail1(ys), tail1(nil), tail0(6))\nq1, q2 := tail2(ys)\nprintln(\"tail2\", q1, q2, t.TailM(ys))\n", r.Intn(50), r.Intn(50))
 	sb.WriteString("println(\"nested\", 10+twice(3)*2, sum(twice(1), twice(2)))\n")
 	sb.WriteString("}\n")
 	return GoProg{Src: sb.String()}
